@@ -96,6 +96,7 @@ pub fn probes(prop: &str, _tier: &str) -> Vec<String> {
       "false.issuance_date",
       "false.expiration_date",
       "false.structure",
+      "false.claims_inconsistent",
       "false.subject_holder",
       "false.status.revoked",
       "false.status.invalid",
@@ -131,6 +132,8 @@ struct CredToken {
   truth: Value,
   custom: Option<Value>,
   issued_index: Option<(String, u32)>,
+  /// hand-made claims signed by the issuer: which defect they carry (None = produced by create_credential_jwt)
+  crafted: Option<&'static str>,
 }
 
 #[derive(Clone)]
@@ -355,9 +358,56 @@ fn issue(w: &mut World, step: usize) {
         truth,
         custom: custom.map(|o| serde_json::to_value(o).unwrap()),
         issued_index,
+        crafted: None,
       });
     }
     Err(e) => ctx::trace(format!("step {step}: issuing failed: {e}")),
+  }
+}
+
+/// The issuer signs hand-made credential claims (as another implementation or a careless integrator would produce
+/// them) in which a value duplicated inside `vc` disagrees with, or lacks, its registered claim, or a numeric date is
+/// out of range. Such a credential is not "the one that was signed" once the conflict is resolved silently, and an
+/// expiration stated only inside `vc` must not escape the expiry check: the statement demands a structure error.
+fn issue_crafted(w: &mut World, step: usize) {
+  let i = ctx::choose(w.n_issuers);
+  let now_i = w.clock.enter(w.parties[i].skew);
+  let p = &w.parties[i];
+  if p.methods.is_empty() {
+    return;
+  }
+  let (frag, _) = p.methods[ctx::choose(p.methods.len())].clone();
+  let kind = ["vc_expiration_without_exp", "vc_issuer_mismatch", "vc_issuance_mismatch", "exp_out_of_range", "sub_mismatch"][ctx::choose(5)];
+  let mut claims = serde_json::json!({
+    "iss": p.did,
+    "nbf": now_i - 100,
+    "sub": "did:sim:subject",
+    "jti": format!("https://cred.example/crafted/{step}"),
+    "vc": {"@context": "https://www.w3.org/2018/credentials/v1", "type": ["VerifiableCredential"], "credentialSubject": {"crafted": step}}
+  });
+  match kind {
+    "vc_expiration_without_exp" => {
+      // expired long ago, or still valid: either way the claims are inconsistent (no `exp`)
+      let e = if ctx::choose(2) == 0 { now_i - 1000 } else { now_i + 100_000 };
+      claims["vc"]["expirationDate"] = ts(e).to_rfc3339().into();
+    }
+    "vc_issuer_mismatch" => claims["vc"]["issuer"] = "did:sim:someoneelse".into(),
+    "vc_issuance_mismatch" => claims["vc"]["issuanceDate"] = ts(now_i - 5000).to_rfc3339().into(),
+    "exp_out_of_range" => claims["exp"] = Value::from(1_000_000_000_000_000i64),
+    _ => claims["vc"]["credentialSubject"]["id"] = "did:sim:anothersubject".into(),
+  }
+  if let Ok(s) = sign_raw(p, &frag, claims.to_string().as_bytes(), &JwsSignatureOptions::default()) {
+    ctx::trace(format!("step {step}: I{i} signs crafted credential claims ({kind})"));
+    w.creds.push(CredToken {
+      s,
+      issuer: i,
+      kid: format!("{}#{frag}", p.did),
+      nonce: None,
+      truth: Value::Null,
+      custom: None,
+      issued_index: None,
+      crafted: Some(kind),
+    });
   }
 }
 
@@ -465,7 +515,7 @@ fn present_crafted(w: &mut World, step: usize) {
     return;
   }
   let (frag, _) = p.methods[ctx::choose(p.methods.len())].clone();
-  let kind = ["holder_mismatch", "id_mismatch", "exp_out_of_range", "iss_not_did"][ctx::choose(4)];
+  let kind = ["holder_mismatch", "id_mismatch", "exp_out_of_range", "iss_not_did", "vp_id_without_jti"][ctx::choose(5)];
   let mut claims = serde_json::json!({
     "iss": p.did,
     "vp": {"@context": "https://www.w3.org/2018/credentials/v1", "type": "VerifiablePresentation", "verifiableCredential": []},
@@ -478,6 +528,7 @@ fn present_crafted(w: &mut World, step: usize) {
       claims["vp"]["id"] = "https://pres.example/b".into();
     }
     "exp_out_of_range" => claims["exp"] = Value::from(1_000_000_000_000_000i64),
+    "vp_id_without_jti" => claims["vp"]["id"] = "https://pres.example/only-in-vp".into(),
     _ => claims["iss"] = "https://holder.example/".into(),
   }
   let mut sopts = JwsSignatureOptions::default();
@@ -910,10 +961,21 @@ fn validate_credential(w: &mut World, step: usize) {
                 ctx::stat("false.signature");
               } else {
                 claims = p.payload.clone();
+                let crafted = w
+                  .creds
+                  .iter()
+                  .find(|c| c.s.split('.').nth(1) == Some(p.payload_b64.as_str()))
+                  .and_then(|c| c.crafted);
                 match &claims {
                   None => {
                     pre = Some("CredentialStructure");
                     pre_label = "claims";
+                  }
+                  Some(_) if crafted.is_some() => {
+                    // duplicated values disagree / lack their registered claim / numeric date out of range
+                    pre = Some("CredentialStructure");
+                    pre_label = "claims_inconsistent";
+                    ctx::stat("false.claims_inconsistent");
                   }
                   Some(c) => {
                     let iss = c.get("iss").map(|i| match i {
@@ -1650,7 +1712,13 @@ pub fn run(prop: &str, _params: &Params) {
     let weights: [u32; 6] = if prop == "C02" { [5, 0, 3, 8, 0, 1] } else { [2, 5, 2, 0, 8, 1] };
     match ctx::weighted(&weights) {
       5 => byzantine_signer(&mut w, step, prop),
-      0 => issue(&mut w, step),
+      0 => {
+        if prop == "C02" && ctx::chance(1, 6) {
+          issue_crafted(&mut w, step)
+        } else {
+          issue(&mut w, step)
+        }
+      }
       1 => {
         if prop == "C03" && ctx::chance(1, 5) {
           present_crafted(&mut w, step)
